@@ -8,19 +8,19 @@ TB = "Trusted base: Go toolchain/runtime, stdlib SHA-1/256/512 compression funct
 CHECKS = {
  "C01": dict(
   technique="runtime reference-model monitor at the API boundary + HMAC-constructor hook (observes key/message, substitutes the digest to drive the formatting stage)",
-  text="Every GenerateHOTP execution of a seeded boundary/random workload is compared byte-for-byte with an independent RFC 4226 model (own HMAC, big-integer modulus); unsupported digits/hash values must yield an error; Param fields generation does not use (Skew, Period) take arbitrary values; through the verif hook the monitor also observes the exact (key, message) of the HMAC and pushes chosen 31-bit values through the real truncation/modulus/formatting code. One-goroutine histories (field-shifted neighbours, keys differing in one byte, adjacent-counter walks) and the js/wasm build's own copy of the derivation (compiled natively through an overlay) are judged by the same oracle. Exploration, not enumeration of 2^64 counters or 2^31 values. A reduced version of the differential also runs compiled for a 32-bit target (GOARCH=386, cmd/arch386).",
+  text="Every GenerateHOTP execution of a seeded boundary/random workload is compared byte-for-byte with an independent RFC 4226 model (own HMAC, big-integer modulus); unsupported digits/hash values must yield an error; Param fields generation does not use (Skew, Period) take arbitrary values; through the verif hook the monitor also observes the exact (key, message) of the HMAC and pushes chosen 31-bit values through the real truncation/modulus/formatting code. One-goroutine histories (field-shifted neighbours, keys differing in one byte, adjacent-counter walks, counters that agree with a base counter in their low or high b bits for every b) and the js/wasm build's own copy of the derivation (compiled natively through an overlay) are judged by the same oracle. Exploration, not enumeration of 2^64 counters or 2^31 values. A reduced version of the differential also runs compiled for a 32-bit target (GOARCH=386, cmd/arch386).",
   design="7/C01"),
  "C02": dict(
   technique="runtime reference-model monitor (differential against independent HOTP at floor(unix/period)) over generated instants, zones, monotonic readings and periods",
-  text="Each GenerateTOTP execution is compared with the reference HOTP at floor(unix/period); one second is rendered as 20 different time.Time values (nanoseconds, zones, monotonic reading) and each must give the reference code; step boundaries +-2 s; Skew (unused by generation) takes arbitrary values; defaults (nil params, period 0) are checked consistently across GenerateTOTP, ValidateTOTP and GenerateTOTPURL. Held on the executions produced. A reduced version of the differential also runs compiled for a 32-bit target (GOARCH=386, cmd/arch386).",
+  text="Each GenerateTOTP execution is compared with the reference HOTP at floor(unix/period); one second is rendered as 20 different time.Time values (nanoseconds, zones, monotonic reading) and each must give the reference code; step boundaries +-2 s; Skew (unused by generation) takes arbitrary values; defaults (nil params, period 0) are checked consistently across GenerateTOTP, ValidateTOTP and GenerateTOTPURL. Held on the executions produced. A reduced version of the differential also runs compiled for a 32-bit target (GOARCH=386, cmd/arch386). One-goroutine histories with one secret and parameter set: walks over adjacent steps and time steps that agree with a base step in their low or high b bits for every b (what a packed or truncated memo key confuses).",
   design="7/C02"),
  "C03": dict(
   technique="runtime window-membership oracle: verdicts of ValidateHOTP compared with the reference set of codes for counters max(0,c-s)..c+s",
-  text="For generated (secret, digits, hash, counter, window) the genuine codes at distance -(s+3)..+(s+3) and hostile strings (edits, truncations, padding, Unicode digits, bytes sharing bits with the right digit, sign/space look-alikes of leading-zero codes, value+2^32 aliases of 10-digit codes) are submitted; the verdict must equal membership in the independently computed window set (so coincidences cannot alarm); windows > 10 must be refused; nil parameters mean 6/SHA-1/2. Exploration over boundary counters (c<s, 2^31, 2^32, 2^63) and random ones.",
+  text="For generated (secret, digits, hash, counter, window) the genuine codes at distance -(s+3)..+(s+3) and hostile strings (edits, truncations, padding, Unicode digits, bytes sharing bits with the right digit, sign/space look-alikes of leading-zero codes, value+2^32 aliases of 10-digit codes) are submitted; the verdict must equal membership in the independently computed window set (so coincidences cannot alarm); windows > 10 must be refused; nil parameters mean 6/SHA-1/2. Exploration over boundary counters (c<s, 2^31, 2^32, 2^63) and random ones. One-goroutine validation histories over adjacent and bit-related counters (own code, window edges, first codes outside).",
   design="7/C03"),
  "C04": dict(
   technique="runtime window-membership oracle on ValidateTOTP + derivation counting through the HMAC-constructor hook (logical work bound, cut-off at 64)",
-  text="As C03 with time steps; refused skews 11..2^64-1 are probed functionally (genuine codes at distance 0/1/11/skew must be rejected with an error) and by counting HMAC derivations per call through the hook (more than 21 is a violation, a runaway loop is cut off by a sentinel panic instead of hanging); without the hook, huge skews run in a child process judged by allocation counts. No wall-clock verdicts.",
+  text="As C03 with time steps; refused skews 11..2^64-1 are probed functionally (genuine codes at distance 0/1/11/skew must be rejected with an error) and by counting HMAC derivations per call through the hook (more than 21 is a violation, a runaway loop is cut off by a sentinel panic instead of hanging); without the hook, huge skews run in a child process judged by allocation counts. No wall-clock verdicts. One-goroutine validation histories over adjacent and bit-related time steps.",
   design="7/C04"),
  "C05": dict(
   technique="runtime reference-model monitor for RFC 6287 + HMAC-constructor hook recording the exact message bytes",
@@ -46,7 +46,7 @@ CHECKS = {
   design="7/C09"),
  "C10": dict(
   technique="crash/hang monitor: hostile-argument workload over the whole exported API in child processes (plain, -race/checkptr, -asan), recover() per call, call log written before each call, derivation cut-off hook",
-  text="Every exported function and method (listed at run time from /repo with go/parser; Must* helpers excluded by the property) is called with hostile values from the property's domain sketch (string arguments of one call are often derived from each other); the exported default TimeCounterFunc and the operations that exist only in the js/wasm build (DeriveRFC4226Wasm, ValidateOTPWasm, compiled natively through an overlay) are driven too; a recovered panic, a process-fatal error attributed through the pre-call log, or unbounded work (hook cut-off / allocation-corroborated hang) is a violation. A wall-clock watchdog firing alone is inconclusive.",
+  text="Every exported function and method (listed at run time from /repo with go/parser; Must* helpers excluded by the property) is called with hostile values from the property's domain sketch (string arguments of one call are often derived from each other); the exported default TimeCounterFunc and the operations that exist only in the js/wasm build (DeriveRFC4226Wasm, ValidateOTPWasm, compiled natively through an overlay) are driven too; a recovered panic, a process-fatal error attributed through the pre-call log, or unbounded work (hook cut-off / allocation-corroborated hang) is a violation. A wall-clock watchdog firing alone is inconclusive. Suites also reach the OCRA calls as constructor results whose exported configuration was edited afterwards and as caller-owned objects reconfigured in place.",
   design="7/C10"),
  "C11": dict(
   technique="Go race detector + differential against the sequential reference under stress: per-configuration -race child processes, yield injection between pool Get and Put (HMAC-constructor hook), adversarial pool user, GC storms, retained-string re-check",
@@ -63,7 +63,7 @@ CHECKS = {
   design="7/C13"),
  "C14": dict(
   technique="runtime reference-predicate monitor; the finite usability grid is enumerated completely, admission by per-field length sweeps",
-  text="All 250 880 configurations of the stated grid are judged by SuiteConfig.Validate, NewSuite, GenerateOCRA and ValidateOCRA against the usability predicate; for 160 usable configuration classes each field is swept over every length 0..140 (nil and empty) with the others valid (thorough: all field pairs over 19 boundary lengths) and OCRAInput.Validate / GenerateOCRA / ValidateOCRA outcomes are compared with the independent admission predicate.",
+  text="All 250 880 configurations of the stated grid are judged by SuiteConfig.Validate, NewSuite, GenerateOCRA and ValidateOCRA against the usability predicate; for 160 usable configuration classes each field is swept over every length 0..140 (nil and empty) with the others valid (thorough: all field pairs over 19 boundary lengths) and OCRAInput.Validate / GenerateOCRA / ValidateOCRA outcomes are compared with the independent admission predicate. The single-field sweep (session at every length 0..140 and 255..4096) is repeated on suite objects made by the library's own parser and registry (advertised names, numbered session tokens S000..S999, time steps, lower case), judged by what a strict reference parser says the string selects.",
   design="7/C14"),
  "C15": dict(
   technique="runtime differential monitor: library registry/parser versus an independent strict RFC 6287 suite-name parser; registry exhaustive, grammar enumerated",
@@ -79,7 +79,7 @@ CHECKS = {
   design="7/C17"),
  "C18": dict(
   technique="black-box differential monitor on the real server binary over loopback: each HTTP response versus the in-process library call with exactly the request's parameters and versus the independent reference model (thorough: also a -race build of the server)",
-  text="The server is built from the working tree and driven with generated well-formed requests to all ten endpoints (every optional field present/absent at random, known and unknown digit/hash spellings, raw and structured suites, white space around secrets, fields of up to ~100 KiB giving large responses) from 1..32 client goroutines on reused and fresh connections; codes, verdicts, echoes, suite list/description, URL and secret responses are compared with the library and the reference; generated codes are fed back to the validate endpoints; 2..16 requests are pipelined on one connection and judged in order; pairs in which the second request's head travels with the first request and its body follows only after the first answer has been read; a share of the requests is sent in another lexical form of the same JSON text (string escapes, white space between tokens) and must be answered like the plain form; 6000..60000 requests with secrets never seen before in one server process, with secrets from the start coming back after 10..50000 others; identical requests without a timestamp repeated as the clock moves on (periods 1 and 2 s), each verdict bracketed by the instants of its exchange; at both ends of the 64-bit counter range the validate verdict is judged against the library alone; 'timestamp omitted' is bracketed by the client's clock around the timestamp the server reports.",
+  text="The server is built from the working tree and driven with generated well-formed requests to all ten endpoints (every optional field present/absent at random, known and unknown digit/hash spellings, raw and structured suites, white space around secrets, fields of up to ~100 KiB giving large responses) from 1..32 client goroutines on reused and fresh connections; codes, verdicts, echoes, suite list/description, URL and secret responses are compared with the library and the reference; generated codes are fed back to the validate endpoints; 2..16 requests are pipelined on one connection and judged in order; pairs in which the second request's head travels with the first request and its body follows only after the first answer has been read; a share of the requests is sent in another lexical form of the same JSON text (string escapes, white space between tokens) and must be answered like the plain form; 6000..60000 requests with secrets never seen before in one server process, with secrets from the start coming back after 10..50000 others; identical requests without a timestamp repeated as the clock moves on (periods 1 and 2 s), each verdict bracketed by the instants of its exchange; at both ends of the 64-bit counter range the validate verdict is judged against the library alone; 'timestamp omitted' is bracketed by the client's clock around the timestamp the server reports. One secret and parameter set on one connection second by second across step boundaries, over adjacent and bit-related steps/counters and validation along them; well-formed requests sent directly after not-well-formed ones to the same endpoint (two documents back to back, trailing text, truncated, wrong type, empty).",
   note="Trusted: Go net/http client, reference models. The clock is only read to bracket the server-reported timestamp; no latency verdicts.",
   design="7/C18"),
  "C19": dict(
@@ -89,7 +89,7 @@ CHECKS = {
   design="7/C19"),
  "C20": dict(
   technique="black-box differential monitor on the freshly built wasm module under Node 20 (through globalThis and through the package's exported object, by name) + native overlay build of the binding's Go sources",
-  text="otp.wasm is built from the working tree into a scratch copy of otp-js and driven under Node with a generated case list over the property's common domain; answers through both access paths are compared per exported name with the native library and the reference model (codes, verdicts at every window distance and for hostile code strings, timestamps near the epoch with the native verdict as oracle, URLs); numbers with a fractional part on any numeric argument must give the integer part's answer or 'error:…'; malformed calls (every argument position x hostile JS values, too few/many arguments, range errors) must return 'error:…' and are followed by a known-answer probe; a thrown exception or missing result (Go runtime died) is a violation. Hostile values cover every JS type (BigInt, Symbol, function, Date, typed array, boxed primitives); the driver reloads the module after a death. The same Go sources are compiled natively through an overlay for a 10x larger differential, the package as committed (index.js + committed lib/otp.wasm) is driven with a reduced list against the same oracle, and so is a process in which the package's entry function is called repeatedly on one module instance (globals, newest and first returned object; the history starts with calls that make the Go heap grow, and a watchdog tells a spinning node from a stalled one by its CPU time).",
+  text="otp.wasm is built from the working tree into a scratch copy of otp-js and driven under Node with a generated case list over the property's common domain; answers through both access paths are compared per exported name with the native library and the reference model (codes, verdicts at every window distance and for hostile code strings, timestamps near the epoch with the native verdict as oracle, URLs); numbers with a fractional part on any numeric argument must give the integer part's answer or 'error:…'; malformed calls (every argument position x hostile JS values, too few/many arguments, range errors) must return 'error:…' and are followed by a known-answer probe; a thrown exception or missing result (Go runtime died) is a violation. Hostile values cover every JS type (BigInt, Symbol, function, Date, typed array, boxed primitives); the driver reloads the module after a death. The same Go sources are compiled natively through an overlay for a 10x larger differential, the package as committed (index.js + committed lib/otp.wasm) is driven with a reduced list against the same oracle, and so is a process in which the package's entry function is called repeatedly on one module instance (globals, newest and first returned object; the history starts with calls that make the Go heap grow, and a watchdog tells a spinning node from a stalled one by its CPU time). Same-parameter histories in one module instance: timestamps second by second across step boundaries in both directions, adjacent and bit-related steps/counters, validation walks.",
   note="Trusted: Node 20 + wasm_exec.js of the toolchain, reference models.",
   design="7/C20"),
 }
